@@ -61,7 +61,7 @@ pub fn units(id: &str, tier: &str) -> Option<Vec<Unit>> {
             share(&mut v, schedprops::c11_sched(thorough).into_iter().filter(|u| u.name.contains("list")).collect());
             v
         }
-        "C08" => { let mut v = seqprops::c08(thorough); v.extend(schedprops::c08_sched(thorough)); v }
+        "C08" => { let mut v = seqprops::c08(thorough); v.extend(schedprops::c08_sched(thorough)); v.push(schedprops::stream_budget_order_unit()); v }
         "C09" => c09::units(thorough),
         "C10" => { let mut v = seqprops::c10(thorough); v.extend(schedprops::c10_sched(thorough)); share(&mut v, schedprops::c11_sched(thorough)); v }
         "C11" => { let mut v = seqprops::c11(thorough); v.extend(schedprops::c11_sched(thorough)); v.push(c14::interference_unit()); share(&mut v, schedprops::c10_sched(thorough)); v }
